@@ -2,7 +2,7 @@
    Property theorems only; proofs are in Proofs/HistoryP.v. *)
 From Coq Require Import String.
 From Model Require Import Base Uni Utf8 Notation Inputrc HistFile Editor.
-From Proofs Require Import EditorP BoundsP HistoryP WalkP SearchP.
+From Proofs Require Import EditorP BoundsP HistoryP TypedP WalkP SearchP TypeNavP.
 Open Scope Z_scope.
 
 (* (c) the search loop of history-search-* only ever returns a stored entry, at its own
@@ -74,6 +74,18 @@ Theorem C09_navigation_is_faithful : forall mk mx cs e, 0 < zlen (hist e) -> hpo
     (0 < k -> hpos e' = k /\ line e' = entry e k).
 Proof. exact navigation_is_faithful. Qed.
 
+(* (a)+(b) from the start of a call, with no hypothesis on the state left: type ANY text made
+   of characters that insert themselves (each through run_one self-insert), then ANY
+   sequence of the four navigation commands, on ANY non-empty history: at abstract position
+   k > 0 the buffer is the k-th newest stored entry, at position 0 it is exactly the text
+   typed; the entries never change; nothing fails. *)
+Theorem C09_type_then_navigate : forall vi mk mx h t cs, 0 < zlen h -> Forall plain_char t ->
+  exists e', (do e1 <- type_all mk mx t (ed_init vi h); run_navs mk mx cs e1) = Ok e' /\ hist e' = h /\
+    let k := nav_fold (zlen h) (map fst cs) 0 in
+    (k = 0 -> hpos e' = -1 /\ line e' = t) /\
+    (0 < k -> hpos e' = k /\ line e' = nth (Z.to_nat (zlen h - k)) h []).
+Proof. exact type_then_navigate_text. Qed.
+
 (* (a), (b) for EVERY history, every line being entered and every sequence of Sources.Walk
    calls of any size and sign (previous-history = Walk 1, next-history = Walk -1,
    beginning-of-history = Walk n, end-of-history = Walk (1 - n), up/down-line-or-history
@@ -116,6 +128,29 @@ Definition c09_run (cmds : list (list Z)) : list (list Z) :=
                                | Ok e => let r := run_one c [] true (-1) e in
                                          (r, snd acc ++ [match r with Ok e' => line e' | _ => [0] end])
                                | x => (x, snd acc) end) cmds (start, [])).
+
+(* non-vacuity of the navigation theorem's hypotheses on a state reached by typing: after "ec"
+   typed through run_one on the three-entry history, the walk is at the bottom, no history
+   line has an undo log, no operator is pending *)
+Definition c09_typed : res ed :=
+  fold_left (fun r c => match r with Ok e => run_one (zs "self-insert") [c] true (-1) e | x => x end)
+            [101; 99] (Ok (ed_init false c09_hist)).
+
+Example C09_typed_state_meets_the_hypotheses : match c09_typed with
+  | Ok e => hpos e = -1 /\ clean e /\ pending e = [] /\ line e = [101; 99] /\ 0 < zlen (hist e)
+  | _ => False end.
+Proof.
+  destruct c09_typed as [e| |] eqn:E; [|vm_compute in E; discriminate E|vm_compute in E; discriminate E].
+  assert (F : hpos e = -1 /\ pending e = [] /\ line e = [101; 99] /\ zlen (hist e) = 3 /\ keys_of e = [-1]).
+  { vm_compute in E. inversion E; subst e. vm_compute. repeat split. }
+  destruct F as (F1 & F2 & F3 & F4 & F5).
+  split; [exact F1|]. split; [|split; [exact F2|split; [exact F3|rewrite F4; reflexivity]]].
+  intros k Hk. unfold keys_of in F5. destruct (lines e) as [|[k0 u0] [|x r]]; cbn in F5; try discriminate.
+  inversion F5; subst k0. cbn [lh_get]. replace (-1 =? k) with false by lia. exact I.
+Qed.
+
+Example C09_plain_chars_exist : Forall plain_char [101; 99; 32; 233; 19990].
+Proof. repeat constructor; try discriminate; vm_compute; reflexivity. Qed.
 
 Example C09_example :
   c09_run (map zs ["previous-history"; "previous-history"; "previous-history"; "previous-history";
